@@ -17,6 +17,8 @@ tools/rs2lean_fn.py — regenerates Lean definitions from the SOURCE TEXT of sel
   fn:spvec    /repo/yui-matrix/src/sparse/sp_vec.rs                -> lean/Yuiv/Gen/SpVecFn.lean    (Props/C13GenV.lean)
   fn:schur    /repo/yui-matrix/src/sparse/schur.rs                 -> lean/Yuiv/Gen/SchurFn.lean    (Props/C08Gen.lean)
   fn:reducer  /repo/yui-homology/src/utils/chain_reducer.rs        -> lean/Yuiv/Gen/ReducerFn.lean  (Props/C08GenR.lean)
+  fn:geninfo  /repo/yui-khovanov/src/misc.rs (collect_gen_info)         -> lean/Yuiv/Gen/GenInfoFn.lean  (Props/C03Gen.lean; renderer tools/rs2lean_poly.py)
+  fn:poly     /repo/yui/src/types/lc/lc.rs + poly/{poly,var,var2,h_poly,mdeg,mvar}.rs -> lean/Yuiv/Gen/PolyFn.lean (Props/C16Gen.lean; renderer tools/rs2lean_poly.py)
 
 Additions for fn:misc / fn:snf (see the target entries in TARGETS and Yuiv/Model/RustIter.lean, RustDense.lean):
 free functions of a file (`free_fns`), closures as auxiliary definitions (captured variables become parameters),
@@ -86,7 +88,7 @@ Semantics emitted
     on fuel (`Res.err` when it runs out): the constant `loopFuel`, or — target option `fuel_param` — an explicit first
     argument `fuel` of every function that (transitively) contains a loop.
 
-Usage: rs2lean_fn.py [fn:bitseq|fn:ratio|fn:intext|fn:qint|fn:ff|fn:misc|fn:snf|fn:lll|fn:homcalc|fn:triang|fn:spmat|fn:trans|fn:spvec|fn:schur|fn:reducer]... [--src FILE]... [--out FILE]   (none = all)
+Usage: rs2lean_fn.py [fn:bitseq|fn:ratio|fn:intext|fn:qint|fn:ff|fn:misc|fn:snf|fn:lll|fn:homcalc|fn:triang|fn:spmat|fn:trans|fn:spvec|fn:schur|fn:reducer|fn:poly|fn:geninfo]... [--src FILE]... [--out FILE]   (none = all)
   `--src` (once per source file of the target, in its order) and `--out` need exactly one target.
 Exit status 0: every selected generated file is up to date or was rewritten; 1: for some target something in a
 REQUIRED function (or in the item structure) is outside the subset — `rs2lean_fn: cannot translate: <what>` is printed
@@ -388,6 +390,77 @@ TARGETS = {
                                        "update_trans", "update_mats", "update_vecs", "preferred_strategy", "reduce_at",
                                        "reduce_all")) +
                  [("chain_reducer", None, n) for n in ("pivots", "reduce_mat_rows", "reduce_mat_cols")]),
+    "poly": dict(
+        src=["/repo/yui/src/types/lc/lc.rs", "/repo/yui/src/types/poly/poly.rs", "/repo/yui/src/types/poly/var.rs",
+             "/repo/yui/src/types/poly/var2.rs", "/repo/yui/src/types/poly/h_poly.rs", "/repo/yui/src/types/poly/mdeg.rs",
+             "/repo/yui/src/types/poly/mvar.rs"],
+        out="PolyFn.lean", ns="Yuiv.GenPoly", scalar="P16", macros=True, fuel_param=False, custom="poly",
+        structs=["Lc", "PolyBase", "Var", "Var2", "HPoly", "MultiDeg", "MultiVar"],
+        imports=["Yuiv.Model.Res", "Yuiv.Model.RustRing", "Yuiv.Model.RustMap"],
+        blurb=["The functions of `Lc<X, R>` (yui/src/types/lc/lc.rs), `PolyBase<X, R>` (poly/poly.rs), `Var<X, I>` (poly/var.rs),",
+               "`Var2<X, Y, I>` (poly/var2.rs), `HPoly<X, R>` (poly/h_poly.rs), `MultiDeg<I>` (poly/mdeg.rs) and `MultiVar<X, I>`",
+               "(poly/mvar.rs), rendered by tools/rs2lean_poly.py.  `BTreeMap<K, V>` is the key-sorted entry list `BMap K V`.",
+               "Every type parameter stays one: `R: Ring` is a type with `0 1 + - * neg` and decidable equality (`is_zero` / `is_one`",
+               "are `= 0` / `= 1`), `X: Gen` a type with decidable equality, `X: Mono` additionally `*`, `1` and the two orders",
+               "`MonoOrd.cmp_lex / cmp_grlex`, the exponent type `I` a type with `+`, `0` and a decidable order (`I::cmp` is",
+               "`Poly.cmpI`); `const X: char` parameters are dropped; `usize` is `Nat` (exponent overflow is not modelled).",
+               "`AHashMap<K, V>` is the association list `AMap K V` of Yuiv/Model/RustMap.lean: its order stands for the unspecified",
+               "iteration order, `insert` of a new key appends, `let v = m.get_mut(k).unwrap()` reads (panic when absent) and writes",
+               "every mutation of `v` back, `iter_mut().for_each` maps the values; iterators are lists, `collect()` is the written",
+               "`FromIterator` impl; closures and `F: Fn(..)` parameters are total Lean functions; `&mut self` methods return the",
+               "new value; `for` loops are folds; `assert!` / `unwrap()` failures are `Res.panic`; operator forms derived by",
+               "`#[auto_ops]` are identified with the written impl; `delegate!` is expanded; cargo features are OFF.",
+               "`Yuiv/Props/C16Gen.lean` proves them equal to the hand-written model `Yuiv/Model/C16.lean`."],
+        required=_req("Lc", ("new", "clean", "nterms", "is_gen", "coeff", "map", "map_coeffs", "map_gens", "filter_gens",
+                             "apply", "combine", "add_pair", "add_pair_ref")) + [
+            ("Lc", "From_X_R", "from"), ("Lc", "FromIterator_X_R", "from_iter"), ("Lc", "Zero", "zero"),
+            ("Lc", "Zero", "is_zero"), ("Lc", "Neg", "neg"), ("Lc", "Neg_ref", "neg"),
+            ("Lc", "AddAssign_Lc_X_R", "add_assign"), ("Lc", "SubAssign_Lc_X_R", "sub_assign"),
+            ("Lc", "MulAssign_R", "mul_assign"), ("Lc", "Mul_ref", "mul")] +
+            _req("PolyBase", ("new", "from_const", "is_const", "const_term", "lead_term")) + [
+            ("PolyBase", "From_X_R", "from"), ("PolyBase", "FromIterator_X_R", "from_iter"), ("PolyBase", "From_Lc_X_R", "from"),
+            ("PolyBase", "Zero", "zero"), ("PolyBase", "Zero", "is_zero"), ("PolyBase", "One", "one"), ("PolyBase", "One", "is_one"),
+            ("PolyBase", "Neg", "neg"), ("PolyBase", "Neg_ref", "neg"),
+            ("PolyBase", "AddAssign_PolyBase_X_R", "add_assign"), ("PolyBase", "SubAssign_PolyBase_X_R", "sub_assign"),
+            ("PolyBase", "MulAssign_R", "mul_assign"), ("PolyBase", "MulAssign_PolyBase_X_R", "mul_assign"),
+            ("PolyBase", "Pow_usize_ref", "pow"),
+            ("Var", "MulAssign_Var_X_I", "mul_assign"), ("Var", "One", "one"), ("Var", "MonoOrd", "cmp_lex"),
+            ("Var", "MonoOrd", "cmp_grlex"),
+            ("Var2", None, "total_deg"), ("Var2", "MulAssign_Var2_X_Y_I", "mul_assign"), ("Var2", "One", "one"),
+            ("Var2", "MonoOrd", "cmp_lex"), ("Var2", "MonoOrd", "cmp_grlex"),
+            ("HPoly", None, "new"), ("HPoly", "Zero", "zero"), ("HPoly", "Zero", "is_zero"), ("HPoly", "One", "one"),
+            ("HPoly", "One", "is_one"), ("HPoly", "PartialEq", "eq"), ("HPoly", "AddAssign_HPoly_X_R", "add_assign"),
+            ("HPoly", "SubAssign_HPoly_X_R", "sub_assign"), ("HPoly", "Neg", "neg"), ("HPoly", "Neg_ref", "neg"),
+            ("HPoly", "MulAssign_R", "mul_assign"), ("HPoly", "MulAssign_HPoly_X_R", "mul_assign")] +
+            _req("MultiDeg", ("new_reduced", "reduce", "empty", "indices", "min_index", "max_index", "total")) + [
+            ("MultiDeg", "Index_usize", "index"), ("MultiDeg", "Zero", "zero"), ("MultiDeg", "Zero", "is_zero"),
+            ("MultiDeg", "AddAssign_MultiDeg_I", "add_assign"), ("MultiDeg", "MonoOrd", "cmp_lex"),
+            ("MultiDeg", "MonoOrd", "cmp_grlex"),
+            ("MultiVar", None, "deg_for"), ("MultiVar", None, "total_deg"), ("MultiVar", "From_MultiDeg_I", "from"),
+            ("MultiVar", "MulAssign_MultiVar_X_I", "mul_assign"), ("MultiVar", "One", "one"),
+            ("MultiVar", "MonoOrd", "cmp_lex"), ("MultiVar", "MonoOrd", "cmp_grlex")]),
+    "geninfo": dict(
+        src=["/repo/yui-khovanov/src/misc.rs"], out="GenInfoFn.lean", ns="Yuiv.GenGenInfo", scalar="P16", macros=False,
+        fuel_param=False, custom="poly", free_fns=True, structs=[],
+        ext_types=[(r"Grid1<Summand<(\w+),(\w+)>>", lambda tr, m, f: ("List", ("tuple", "isize", ("SM", tr.ty(m.group(2), f))))),
+                   (r"Summand<(\w+),(\w+)>", lambda tr, m, f: ("SM", tr.ty(m.group(2), f))),
+                   (r"isize2", lambda tr, m, f: ("tuple", "isize", "isize"))],
+        ext_lean={"SM": "GI.Summand", "CH": "GI.Chain"},
+        ext_methods={("SM", "rank", 0): ("GI.Summand.rank", [], lambda t: "usize"),
+                     ("SM", "tors", 0): ("GI.Summand.tors", [], lambda t: ("List", t[1])),
+                     ("SM", "gen", 1): ("GI.Summand.gen", ["usize"], lambda t: "CH"),
+                     ("CH", "q_deg", 0): ("GI.Chain.q_deg", [], lambda t: "isize")},
+        tuple_ctors={"isize2": (2, ["isize", "isize"])},
+        imports=["Yuiv.Model.Res", "Yuiv.Model.RustRing", "Yuiv.Model.RustMap", "Yuiv.Model.RustGenInfo"],
+        blurb=["`collect_gen_info` of yui-khovanov/src/misc.rs (the table behind `KhHomology::into_bigraded` / `KhIHomology::into_bigraded`:",
+               "every reported generator of the total homology is filed under (homological degree, `q_deg` of its representative)),",
+               "rendered by tools/rs2lean_poly.py.  `R` is a type parameter; `HashMap<K, V>` is the association list `AMap K V`",
+               "(Yuiv/Model/RustMap.lean: `entry(k).or_insert_with(..)` appends a missing binding, the returned reference is read and",
+               "every mutation written back); `Grid1<Summand<X, R>>` is the list of its `(degree, summand)` pairs, `Summand` the",
+               "accessors `rank / tors / gen` and a generator the list of the quantum degrees of its terms (Yuiv/Model/RustGenInfo.lean);",
+               "`usize` is `Nat` with checked subtraction, `tors()[i]` panics out of range; `for` loops are `Poly.forM` folds.",
+               "`Yuiv/Props/C03Gen.lean` proves it equal to the hand-written model `C03.collect` (`Yuiv/Model/C03.lean`)."],
+        required=[("misc", None, "collect_gen_info")]),
     "intext": dict(
         src=["/repo/yui/src/misc/int_ext.rs", "/repo/yui/src/abst/euc_ring.rs"], out="IntExtFn.lean",
         ns="Yuiv.GenIntExt", scalar="Z", macros=True, fuel_param=True,
@@ -542,6 +615,7 @@ class Parser:
     mut_types = False     # accept `&mut T` inside types (erased; a function returning one is only usable as a place)
     features = set()      # enabled cargo features (none: every `cfg(feature = "..")` item / branch is dropped)
     const_generics = False      # target option: `const D: i32` parameters are value parameters
+    incl_ranges = False         # accept `a..=b` (node `range` with `incl`); only the fn:poly renderer sets it
 
     def __init__(self, toks, pos=0, end=None):
         self.cparams_seen = []
@@ -889,11 +963,12 @@ class Parser:
                 lhs = N("assign", op=op, l=lhs, r=rhs, line=t.line)
                 continue
             if op in ("..", "..=", "..."):
-                if op != "..": raise Unsupported(f"range expression `{op}` (line {t.line})")
+                if op != ".." and not (op == "..=" and Parser.incl_ranges): raise Unsupported(f"range expression `{op}` (line {t.line})")
                 if 2 < minp: break
                 self.next()
                 hi = self.expr(3, nostruct)
                 lhs = N("range", lo=lhs, hi=hi, line=t.line)
+                if op == "..=": lhs.incl = True
                 continue
             break
         return lhs
@@ -5311,6 +5386,9 @@ def generate(src_text, src_label, target="bitseq"):
     cfg = TARGETS[target]
     REQUIRED = cfg["required"]
     texts = src_text if isinstance(src_text, list) else [src_text]
+    if cfg.get("custom") == "poly":          # own renderer (tools/rs2lean_poly.py) on top of this file's parser
+        import rs2lean_poly
+        return rs2lean_poly.generate(texts, src_label, cfg, sys.modules[__name__])
     toks, allids, mod = None, set(), None
     Parser.const_generics = bool(cfg.get("const_generics"))
     Parser.turbofish = bool(cfg.get("csc") or cfg.get("sp13") or cfg.get("abs"))
